@@ -91,18 +91,23 @@ def handler_src(prog, part, m, in_trait):
     """Signature (trait) or echo implementation of one handler."""
     ctx_ty, ctx_fn = CTX[m["kind"]]
     params = "".join(", %s: %s" % (a["n"], TYPES[a["t"]][0]) for a in m["args"])
-    ret = "QResp" if m["kind"] == "query" else "Response"
+    ret = (m.get("resp") or "QResp") if m["kind"] == "query" else "Response"
+    explicit = m["kind"] == "query" and m.get("explicit")
+    attr = "#[sv::msg(%s%s)]" % (m["kind"], (", resp=%s" % ret) if explicit else "")
     if in_trait:
-        return "        #[sv::msg(%s)]\n        fn %s(&self, ctx: %s%s) -> Result<%s, Self::Error>;\n" % (
-            m["kind"], m["name"], ctx_ty, params, ret)
+        if explicit:        # an aliased result type: the response type can only come from `resp=`
+            return "        %s\n        fn %s(&self, ctx: %s%s) -> QResultB<Self::Error>;\n" % (attr, m["name"], ctx_ty, params)
+        return "        %s\n        fn %s(&self, ctx: %s%s) -> Result<%s, Self::Error>;\n" % (
+            attr, m["name"], ctx_ty, params, ret)
     args = ", ".join('("%s", rec::enc(&%s))' % (a["n"], a["n"]) for a in m["args"])
     ok = "true" if m["outcome"] == "ok" else "false"
     mutc = "" if m["kind"] == "query" else "        rec::touch(ctx.deps.storage, \"%s\");\n" % m["name"]
-    fin = ("rec::qresp" if m["kind"] == "query" else "rec::resp") + '("%s", %d, %s)' % (m["name"], m["code"], ok)
+    fin = (("rec::qresp_b" if ret == "QRespB" else "rec::qresp") if m["kind"] == "query" else "rec::resp") + '("%s", %d, %s)' % (m["name"], m["code"], ok)
     err = "HandlerErr" if part["id"] == "own" else "ContractError"   # interfaces share the contract's error type
-    return ("    fn %s(&self, ctx: %s%s) -> Result<%s, " + err + "> {\n"
+    rty = ("QResultB<" + err + ">") if explicit else ("Result<%s, " % ret + err + ">")
+    return ("    fn %s(&self, ctx: %s%s) -> " + rty.replace("%", "%%") + " {\n"
             "        rec::handler(\"%s\", \"%s\", \"%s\", \"%s\", vec![%s], rec::%s(&ctx));\n"
-            "%s        %s\n    }\n") % (m["name"], ctx_ty, params, ret, prog["id"], part["id"], m["name"], m["kind"], args, ctx_fn, mutc, fin)
+            "%s        %s\n    }\n") % (m["name"], ctx_ty, params, prog["id"], part["id"], m["name"], m["kind"], args, ctx_fn, mutc, fin)
 
 
 def msg_path(part, kind):
@@ -194,6 +199,17 @@ def remote_src(prog):
     return "".join(o)
 
 
+def schema_src(prog):
+    o = ["    fn schema_events() {\n        use sylvia::cw_schema::QueryResponses;\n"]
+    for p in prog["parts"]:
+        pre = "sv::" if p["id"] == "own" else "%s::sv::" % p["id"]
+        o.append("        rec::schemas(\"%s\", \"%s\", <%sQueryMsg as QueryResponses>::response_schemas().map_err(|e| e.to_string()), -1);\n" % (prog["id"], p["id"], pre))
+    o.append("        let root = sylvia::cw_schema::schemars::schema_for!(sv::ContractQueryMsg);\n"
+             "        let anyof = root.schema.subschemas.as_ref().and_then(|s| s.any_of.as_ref()).map(|a| a.len() as i64).unwrap_or(-1);\n"
+             "        rec::schemas(\"%s\", \"contract\", <sv::ContractQueryMsg as QueryResponses>::response_schemas().map_err(|e| e.to_string()), anyof);\n    }\n\n" % prog["id"])
+    return "".join(o)
+
+
 def variant_of_part(part):
     return "Ctr" if part["id"] == "own" else part["id"].capitalize()
 
@@ -208,7 +224,7 @@ def program_src(prog):
     o.append("#[allow(dead_code, unused_variables, unused_imports, clippy::all)]\npub mod %s {\n" % mod)
     o.append("    use sylvia::ctx::{ExecCtx, InstantiateCtx, MigrateCtx, QueryCtx, SudoCtx};\n"
              "    use sylvia::cw_std::{from_json, to_json_vec, Binary, Env, MessageInfo, Response, StdError, Uint128};\n"
-             "    use verif_rrt::{rec, CallOut, ContractError, Deps, HandlerErr, Nested, ProgVt, QResp};\n"
+             "    use verif_rrt::{rec, CallOut, ContractError, Deps, HandlerErr, Nested, ProgVt, QResp, QRespB, QResultB};\n"
              "    use verif_rrt::{outcome_bin, outcome_resp, proj_anyhow, proj_err, serde_json};\n\n")
     for p in ifaces:
         tr = p["id"].capitalize()
@@ -230,7 +246,7 @@ def program_src(prog):
         o.append("    #[sv::messages(%s as %s)]\n" % (p["id"], p["id"].capitalize()))
     o.append("    impl Ctr {\n        pub const fn new() -> Self {\n            Ctr\n        }\n")
     for m in own["methods"]:
-        o.append("        #[sv::msg(%s)]\n" % m["kind"])
+        o.append("        #[sv::msg(%s%s)]\n" % (m["kind"], (", resp=%s" % m["resp"]) if (m["kind"] == "query" and m.get("explicit")) else ""))
         o.append("    " + handler_src(prog, own, m, False).replace("\n    ", "\n        ").rstrip(" "))
     o.append("    }\n\n")
 
@@ -287,8 +303,9 @@ def program_src(prog):
     o.append("            _ => CallOut::Absent,\n        }\n    }\n\n")
     o.append("    fn encode_events() {\n" + encode_src(prog) + "    }\n\n")
     o.append(remote_src(prog))
+    o.append(schema_src(prog))
     parts = ", ".join('"%s"' % p["id"] for p in prog["parts"])
-    o.append("    pub fn vt() -> ProgVt {\n        ProgVt { id: \"%s\", lists, decode_wrapper, decode_part, decode_struct, call_ep, call_mt, encode_events, parts: &[%s], remote_events: Some(remote_events) }\n    }\n" % (pid, parts))
+    o.append("    pub fn vt() -> ProgVt {\n        ProgVt { id: \"%s\", lists, decode_wrapper, decode_part, decode_struct, call_ep, call_mt, encode_events, schema_events: Some(schema_events), parts: &[%s], remote_events: Some(remote_events) }\n    }\n" % (pid, parts))
     o.append("}\n")
     return "".join(o)
 
